@@ -283,3 +283,45 @@ func (m *Model) RunCutset(s *Sink, rule string) {
 		s.OK(rule, "object, evaluator|no multi-character constant cutset on the output path", "-", "no call of strings.Trim/TrimLeft/TrimRight with a constant set of several different characters in the object and evaluator packages")
 	}
 }
+
+// RunObjString — R-ESCAPE (printing): what an object prints is its payload. The String methods of the object package put
+// values together (joins, separators, number formatting) and do not rewrite text: no trimming, replacing, case mapping
+// or (un)escaping there — a literal that reached an object unchanged must leave it unchanged.
+func (m *Model) RunObjString(s *Sink, rule string) {
+	rewriting := func(name string) bool {
+		for _, p := range []string{"strings.Trim", "strings.Replace", "strings.ToUpper", "strings.ToLower", "strings.ToTitle", "strings.Title", "strings.Map", "strings.Fields", "strings.NewReplacer", "(*strings.Replacer).", "html.", "unicode.", "regexp.", "(*regexp.Regexp)."} {
+			if strings.HasPrefix(name, p) {
+				return true
+			}
+		}
+		return false
+	}
+	n := 0
+	for _, fn := range m.ModFns {
+		if fn.Blocks == nil || shortPkg(fnPkgPath(fn)) != "object" || fn.Signature.Recv() == nil || canonFnName(fn) != "String" {
+			continue
+		}
+		n++
+		bad := ""
+		for _, h := range m.helpersOf(fn) {
+			for _, b := range h.Blocks {
+				for _, in := range b.Instrs {
+					if c, ok := in.(ssa.CallInstruction); ok {
+						if sc := c.Common().StaticCallee(); sc != nil && rewriting(fnFullName(sc)) && bad == "" {
+							bad = fnFullName(sc) + " at " + m.InstrPos(in)
+						}
+					}
+				}
+			}
+		}
+		key := fnKey(fn) + "|prints its payload without rewriting it"
+		if bad != "" {
+			s.Violation(rule, key, m.Pos(fn.Pos()), "%s rewrites text while printing (%s): a literal that reached this object byte for byte does not leave it that way (leading blanks trimmed, characters replaced, ...)", fnKey(fn), bad)
+		} else {
+			s.OK(rule, key, m.Pos(fn.Pos()), "no trimming, replacing, case mapping or escaping call in the method or its private helpers")
+		}
+	}
+	if n < 8 {
+		s.Undecided(rule, "object|String methods", "-", "only %d String methods found in package object", n)
+	}
+}
